@@ -22,8 +22,13 @@ namespace iprv_uses {
              const Qualified& qu, const Array& ar, const Decltype& dt, const As_type& at, const Tor& tor,
              const Ptr_to_member& pm, const Reference& rf, const Rvalue_reference& rr, const Template_id& ti,
              const Ctor_name& cn, const Dtor_name& dn, const Guide_name& gn, const Type_id& tid, const Suffix& sf,
-             const Operator& op, const Comment& cm, const Annotation& an)
+             const Operator& op, const Comment& cm, const Annotation& an,
+             const Dot& dot, const Arrow& arrow, const Dot_star& dot_star, const Arrow_star& arrow_star, const Array_ref& aref,
+             const Cast& cast, const Static_cast& scast, const Dynamic_cast& dcast, const Const_cast& ccast, const Reinterpret_cast& rcast)
    {
+      (void) dot.base(); (void) dot.member(); (void) arrow.base(); (void) arrow.member(); (void) dot_star.base(); (void) dot_star.member();
+      (void) arrow_star.base(); (void) arrow_star.member(); (void) aref.base(); (void) aref.member();
+      (void) cast.expr(); (void) scast.expr(); (void) dcast.expr(); (void) ccast.expr(); (void) rcast.expr();
       seq(st); seq(sd); seq(se);
       (void) pr.size(); (void) pr[0]; (void) pr.elements(); (void) su.size(); (void) su[0]; (void) su.elements();
       (void) xl.size(); (void) xl.elements();
